@@ -849,7 +849,7 @@ pub fn def(tier: Tier) -> PropertyDef {
 	PropertyDef {
 		id: "C05",
 		level: "exploration",
-		rule: "All 37 indicators, generated valid configurations with every MA kind and boundary periods, valid candle streams <= 400 (thorough 1500) incl. flat stretches, gaps, zero-volume bars and regime streams; at every step every raw value must lie inside the interval [v - e, v + e] of an independent reference indicator (DESIGN §6) composed from naive reference methods (full history, f64) in value+-allowance arithmetic: sums and products propagate errors, quotients below twice their error are exempt (counted), undecidable state-changing branches either follow the returned values for the state only (never for the expectation) or cut the case (counted). Non-trivial = stream longer than the largest period, not cut before that point, at least one value compared; distinct by hash.",
+		rule: "All 37 indicators, generated valid configurations with every MA kind and boundary periods, valid candle streams <= 400 (thorough 1500) incl. flat stretches, gaps, zero-volume bars, regime streams, one stream in seven at a tiny price scale (1e-12..1e-6), and long one-sided trend streams with a zig-zag (<= 1500 bars, thorough 5000); at every step every raw value must lie inside the interval [v - e, v + e] of an independent reference indicator (DESIGN §6) composed from naive reference methods (full history, f64) in value+-allowance arithmetic: sums and products propagate errors, quotients below twice their error are exempt (counted), undecidable state-changing branches either follow the returned values for the state only (never for the expectation) or cut the case (counted). Non-trivial = stream longer than the largest period, not cut before that point, at least one value compared; distinct by hash.",
 		assumptions: vec!["allowance K = 256 of DESIGN 4.2 for every reference method; averages configured as MA::Vidya use a first-order error model that widens to the hull of input and previous output when the smoothing factor is undecidable".into(), "candle helper functions of yata::core (source, tp, hl2) are trusted here; C18 checks them".into()],
 		exhaustive: false,
 		checks,
